@@ -385,9 +385,9 @@ def build_model(c):
     k, s = c["model"], c["seed"]
     X, Y = data(s + 1, 14, 2), data(s + 2, 14, 1)
     if k in ("esn", "esn_fb"):
-        m = ESN(units=8, sr=0.9, lr=0.5, ridge=1e-3, seed=s, feedback=(k == "esn_fb"), workers=1)
+        m = ESN(units=8, sr=0.9, lr=0.5, ridge=1e-3, seed=s, feedback=(k == "esn_fb"), workers=1, fb_connectivity=1.0)
     else:
-        r1 = Reservoir(8, lr=0.5, sr=0.9, seed=s)
+        r1 = Reservoir(8, lr=0.5, sr=0.9, seed=s, fb_connectivity=1.0)
         if k == "chain":
             m = r1 >> Ridge(1, ridge=1e-3)
         elif k == "fb":
@@ -453,6 +453,15 @@ def model_op(m, c, op, seed):
         if esn:
             return m.run(X, from_state={n.name: np.full((1, n.output_dim), 0.25) for n in m.nodes})
         return m.run(X, from_state={first.name: np.full((1, first.output_dim), 0.25)})
+    if op == "run_forced":
+        # forced feedback (keyed by the sender's current name) must be honoured alike by the original and the copy - and
+        # must make a difference
+        if k not in ("esn_fb", "fb"):
+            return m.run(X)
+        F = np.full((len(X), 1), 3.0)
+        free = m.run(X, stateful=False)
+        forced = m.run(X, forced_feedbacks=F if esn else {last.name: F})
+        return [forced, bool(np.allclose(np.asarray(free), np.asarray(forced)))]
     if op == "getitem":
         if esn:
             return m.reservoir.name
@@ -482,7 +491,7 @@ def model_op(m, c, op, seed):
     raise common.FrameworkError(op)
 
 
-MODEL_OPS = ["run", "run_stateless", "call", "return_all", "return_named", "named_input", "from_state", "getitem", "node_names",
+MODEL_OPS = ["run", "run_stateless", "run_forced", "run_forced", "call", "return_all", "return_named", "named_input", "from_state", "getitem", "node_names",
              "reset_run", "fit", "fit_named", "train"]
 
 
